@@ -1234,6 +1234,50 @@ fn big_case(kind: &str, size: usize, layout: usize, reps: usize) -> Case {
     Case { ups, lay, reps }
 }
 
+/// A long history of ONE key: `n` writes by the node (strings and counters interleaved with a neighbour key of the same shard),
+/// two thirds in two segments, the rest in the WAL. Whatever bounds a node puts on mailboxes, batches or windows, recovery has
+/// to end at the merge of all of it - the last write.
+fn long_case(n: usize, reps: usize) -> Case {
+    let mut s = ShardReplicaState::new(ReplicaId(NODE), ConsistencyLevel::Eventual);
+    let mut ups = vec![];
+    for i in 0..n {
+        ups.push(if i % 211 == 210 { s.record_write("hot-neighbour".into(), sds(&format!("n{}", i)), None) } else { s.record_write("hot".into(), sds(&format!("v{}", i)), None) });
+    }
+    ups.push(s.record_write("hot".into(), sds("the-last-write"), None));
+    let (a, b) = (n / 3, 2 * n / 3);
+    let lay = Layout {
+        chk: None,
+        segs: vec![Seg { id: 1, upd: (0..a).collect() }, Seg { id: 2, upd: (a..b).collect() }],
+        wals: vec![Wal { synced: n + 1 - b, upd: (b..=n).collect() }],
+        unlist_covered: false,
+        no_manifest: false,
+    };
+    Case { ups, lay, reps }
+}
+
+async fn do_long_case(rep: &mut Report, n: usize) {
+    let c = long_case(n, 1);
+    let img = match build_image(&c).await {
+        Ok(i) => i,
+        Err(e) => {
+            rep.count("harness:image-build-failed");
+            rep.note(format!("could not build an image: {}", e));
+            return;
+        }
+    };
+    for entry in ENTRIES {
+        rep.evaluations += 1;
+        rep.count(&format!("entry:{}", entry));
+        rep.count("space:long-history-of-one-key");
+        rep.distinct(&("long-history", n, entry));
+        if let Some(mut f) = run_entry(&c, &img, entry).await {
+            f.sig = format!("{}|one-key-written-{}-times", f.sig, if n > 4096 { ">4096" } else { "<=4096" });
+            rep.count(&format!("fail:{}", &f.sig[4..]));
+            rep.violation(f.sig.clone(), format!("{} ({} writes of one key: two segments and a WAL file; not shrunk)", f.detail, n), json!({"long_case": n, "entry": entry, "observed": f.extra}));
+        }
+    }
+}
+
 fn big_recipe(w: &Value) -> Option<Case> {
     let r = w.get("recipe")?;
     Some(big_case(r["kind"].as_str()?, r["size"].as_u64()? as usize, r["layout"].as_u64()? as usize, w["reps"].as_u64().unwrap_or(1) as usize))
@@ -1630,6 +1674,15 @@ pub fn recover_leg(args: &Args) {
             let c = big_case(kind, size, layout, 1 + (n + layout) % 2);
             if let Err(p) = guard(|| rt.block_on(do_big_case(&mut rep, &c, &recipe))) {
                 rep.violation(format!("C11|recovery|panic|{}|wal-file-holds-an-entry-above-1MiB", panic_class(&p)), p, json!({"recipe": recipe, "reps": c.reps, "entry": "server-replay"}));
+            }
+        }
+    }
+    // long histories of one key (one size per shard of the run; all sizes in the thorough tier)
+    let sizes = [1500usize, 5000, 9000];
+    for (i, n) in sizes.iter().enumerate() {
+        if t || i == args.shard % sizes.len() {
+            if let Err(p) = guard(|| rt.block_on(do_long_case(&mut rep, *n))) {
+                rep.violation(format!("C11|recovery|panic|{}|one-key-written-many-times", panic_class(&p)), p, json!({"long_case": n}));
             }
         }
     }
